@@ -1131,7 +1131,9 @@ def mutate(rng, kind, p):
         elif c == 4 and gs:
             g = rng.choice(gs)
             if len(g.initializer):
-                g.initializer.add().CopyFrom(rng.choice(list(g.initializer)))
+                t = g.initializer.add()
+                t.CopyFrom(rng.choice(list(g.initializer)[:-1]))
+                t.doc_string = "duplicate"
                 what.append("duplicate-initializer")
         elif c == 5 and gs:
             g = rng.choice(gs)
@@ -1147,7 +1149,9 @@ def mutate(rng, kind, p):
         elif c == 7 and ns:
             n = rng.choice(ns)
             if len(n.attribute):
-                n.attribute.add().CopyFrom(rng.choice(list(n.attribute)))
+                a = n.attribute.add()
+                a.CopyFrom(rng.choice(list(n.attribute)[:-1]))
+                a.doc_string = "shadowing duplicate"
                 what.append("duplicate-attribute")
         elif c == 8 and ns:
             n = rng.choice(ns)
@@ -1209,7 +1213,9 @@ def mutate(rng, kind, p):
         elif c == 12 and gs:
             g = rng.choice(gs)
             if len(g.input):
-                g.input.add().CopyFrom(rng.choice(list(g.input)))
+                v = g.input.add()
+                v.CopyFrom(rng.choice(list(g.input)[:-1]))
+                v.doc_string = "duplicate"
                 what.append("duplicate-input")
         elif c == 13 and isinstance(p, ModelProto) and len(p.functions):
             p.functions.add().CopyFrom(rng.choice(list(p.functions)))
